@@ -121,13 +121,15 @@ Theorem C17_eval_exec_wrapped : forall (e : nenv) (n : string),
 Proof. exact eval_exec_never_builtin. Qed.
 Print Assumptions C17_eval_exec_wrapped.
 
-(* print and log.* are methods of the script's logger *)
-Theorem C17_print_logs : forall e : nenv, ne_sym e = false -> exists lvl, name_lookup e "print" = KLogger lvl.
+(* print and log.* are methods of the script's logger wherever the evaluator's local table holds the installed functions
+   ([ne_local]: everywhere except inside trigger string expressions, where the table is replaced by the trigger variables and
+   print/log.* are simply undefined - C17_builtins/C17_six_names still apply there, for every [e]) *)
+Theorem C17_print_logs : forall e : nenv, ne_sym e = false -> ne_local e = true -> exists lvl, name_lookup e "print" = KLogger lvl.
 Proof. exact print_is_logger. Qed.
 Print Assumptions C17_print_logs.
 
 Theorem C17_log_functions : forall (e : nenv) (n lvl : string),
-  ne_sym e = false -> In (n, lvl) [("log.debug", "debug"); ("log.info", "info"); ("log.warning", "warning"); ("log.error", "error")] ->
+  ne_sym e = false -> ne_local e = true -> In (n, lvl) [("log.debug", "debug"); ("log.info", "info"); ("log.warning", "warning"); ("log.error", "error")] ->
   name_lookup e n = KLogger lvl.
 Proof. exact log_funcs_are_loggers. Qed.
 Print Assumptions C17_log_functions.
